@@ -532,9 +532,9 @@ fn limit_edges() -> Vec<LimitCase> {
 
 pub fn run(ctx: &Ctx, rep: &mut Report) {
     engine::enumerate(ctx, rep, "limit-edges", limit_edges().into_iter(), check_limits);
-    let cases = ctx.share(ctx.tier.pick(90_000, 5_000_000));
+    let cases = ctx.share(ctx.tier.pick(180_000, 5_000_000));
     engine::drive(ctx, rep, "random", case_strategy(), cases, check_case);
-    let cases = ctx.share(ctx.tier.pick(60_000, 2_000_000));
+    let cases = ctx.share(ctx.tier.pick(120_000, 2_000_000));
     engine::drive(ctx, rep, "limits", limit_case(), cases, check_limits);
     if ctx.tier == Tier::Thorough && ctx.shard == 0 {
         engine::one(ctx, rep, "too-many-pairs", &json!({"pairs": "i32::MAX + 1 zero-sized values through new_from_sorted"}), |_| check_too_many_pairs());
